@@ -181,19 +181,28 @@ class GCXS(SparseArray, NDArrayOperatorsMixin):
         if not all(isinstance(sh, Integral) and int(sh) >= 0 for sh in shape):
             raise ValueError("shape must be an non-negative integer or a tuple of non-negative integers.")
 
-        # constant-time consistency checks of the three arrays (their contents are trusted)
+        # consistency checks of the three arrays: lengths, then contents (one pass over indices and indptr)
         if len(shape) >= 1 and len(self.data) != len(self.indices):
             raise ValueError(
                 f"data and indices must have the same length, but len(data)={len(self.data)} and len(indices)={len(self.indices)}"
             )
+        n_uncompressed = int(shape[0]) if len(shape) == 1 else None
         if len(shape) >= 2:
             n_compressed = reduce(operator.mul, (int(shape[a]) for a in compressed_axes), 1)
+            n_uncompressed = reduce(operator.mul, (int(sh) for a, sh in enumerate(shape) if a not in compressed_axes), 1)
             if len(self.indptr) != n_compressed + 1:
                 raise ValueError(
                     f"indptr must have one entry per compressed row plus one ({n_compressed + 1}), but len(indptr)={len(self.indptr)}"
                 )
             if self.indptr[0] != 0 or self.indptr[-1] != len(self.indices):
                 raise ValueError("indptr must start at 0 and end at len(indices)")
+            if np.any(self.indptr[1:] < self.indptr[:-1]):
+                raise ValueError("indptr must be non-decreasing")
+        if n_uncompressed is not None and len(self.indices):
+            if np.ndim(self.indices) != 1:
+                raise ValueError("indices must be 1-dimensional.")
+            if np.min(self.indices) < 0 or np.max(self.indices) >= n_uncompressed:
+                raise ValueError(f"indices must lie in [0, {n_uncompressed}), the extent of the uncompressed axes")
 
         self.shape = shape
 
